@@ -75,7 +75,7 @@ impl<'a> StringLexer<'a> {
                     }
                     b'\\' => Some(b'\\'),
 
-                    _ => {
+                    b'0' ..= b'7' => {
                         self.back()?;
                         let _start = self.get_offset();
                         let mut char_code: u16 = 0;
@@ -92,6 +92,8 @@ impl<'a> StringLexer<'a> {
                         }
                         Some(char_code as u8)
                     }
+                    // the backslash is ignored if the next character is not one of the above
+                    c => Some(c)
                 }
                 )
             },
